@@ -18,6 +18,14 @@ def rfc_compatible(a, b):
     return frozenset([a, b]) in RFC_COMPAT
 
 
+def fields_by_type(f, struct_suffix, pred):
+    """names of the fields of a local struct whose type text satisfies pred (roles by type, never by name)"""
+    for p, a in f.adts.items():
+        if p.endswith(struct_suffix) and a["kind"] == "Struct":
+            return [x["name"] for x in a["variants"][0]["fields"] if pred(x["ty"])]
+    return []
+
+
 def trait_impls(f, trait_suffix, method):
     """impl_self -> body of `method` in impls of a trait whose path ends with trait_suffix."""
     out = {}
@@ -152,6 +160,46 @@ def slice_base(e):
                 e = e[2][0]
                 continue
         return e
+
+
+def emptiness(e, c):
+    """(subject, is_empty) if the decision (e, c) tests a container for emptiness in any of its normal forms:
+    x.is_empty(), x.len() == 0, x.len() != 0, x.len() > 0, x.len() < 1, x.len() >= 1 (either operand order); else None"""
+    t = True if (c == ("eq", 1) or c == ("notin", (0,))) else (False if c == ("eq", 0) else None)
+    if t is None:
+        return None
+    while e[0] == "unop" and e[1] == "Not":
+        t = not t
+        e = e[2]
+    if e[0] in ("pure", "call") and short(e[1]) == "is_empty" and len(e[2]) == 1:
+        return (e[2][0], t)
+    if e[0] == "binop" and e[1] in ("Eq", "Ne", "Gt", "Lt", "Ge", "Le"):
+        op, a, b = e[1], strip_casts(e[2]), strip_casts(e[3])
+        if a[0] == "int" and b[0] != "int":
+            a, b = b, a
+            op = {"Gt": "Lt", "Lt": "Gt", "Ge": "Le", "Le": "Ge"}.get(op, op)
+        if b[0] != "int" or not (a[0] in ("pure", "call") and short(a[1]) in ("len", "remaining") and len(a[2]) == 1):
+            return None
+        k = b[1]
+        table = {("Eq", 0): True, ("Ne", 0): False, ("Gt", 0): False, ("Lt", 1): True, ("Ge", 1): False, ("Le", 0): True}
+        if (op, k) not in table:
+            return None
+        r = table[(op, k)]
+        return (a[2][0], r if t else not r)
+    return None
+
+
+def is_empty_bytes(e):
+    """e is an empty `Bytes`: Bytes::new(), Bytes::default(), Bytes::from_static(b""), Bytes::from("") ..."""
+    if not (isinstance(e, tuple) and e and e[0] in ("pure", "call") and "Bytes" in e[1]):
+        return False
+    n = short(e[1])
+    if n in ("new", "default") and not e[2]:
+        return True
+    if n in ("from_static", "from", "copy_from_slice") and len(e[2]) == 1:
+        from .rules.tables import const_str
+        return any(const_str(x) == "" for x in walk_expr(e[2][0]))
+    return False
 
 
 def mask_of(e):
